@@ -499,9 +499,18 @@ def rule_outer_loop(ctx):
     rc = prog.find("BodyReader::read_chunked")
     if not ctx.require(rc, R, "entry", "BodyReader::read_chunked"):
         return
-    heads = rc.loop_heads()
-    if not ctx.floor(R, "loop", len(heads), 1, "loops in the outer chunked reader"):
+    # the loop that drives the decoder may sit in the reader itself or in a helper it delegates to
+    from .panics import reachable_from
+    rc0 = rc
+    loop_body = None
+    for b_ in [rc] + [x for x in reachable_from(prog, [rc]) if not x.is_derived and x is not rc]:
+        if b_.loop_heads() and any(short(callee_path(t) or "").endswith("Dechunker::parse_input") for _, t in b_.calls()):
+            loop_body = b_
+            break
+    if not ctx.require(loop_body, R, "loop", "loop around the decoder call, in the chunked reader or a helper of it"):
         return
+    rc = loop_body
+    heads = rc.loop_heads()
     # blocks inside the loop: those that can reach the head and are reachable from it
     head = sorted(heads)[0]
     succ = rc.succ_map()
@@ -551,7 +560,7 @@ def rule_outer_loop(ctx):
         st.write_leaf(SRC, (), ("term", ("in", "src")))
         st.write_leaf(DST, (), ("term", ("in", "dst")))
     try:
-        I.run(rc, [ref(("OBJ", "r")), ref(SRC), ref(DST), {(): ("term", ("in", "stop"))}], init)
+        I.run(rc0, [ref(("OBJ", "r")), ref(SRC), ref(DST), {(): ("term", ("in", "stop"))}], init)
     except (PathLimit, Unsupported) as e:
         ctx.incomplete(R, "interp", str(e))
         return
